@@ -146,9 +146,10 @@ pub struct Oracle {
     pub expect_deliver: Vec<InMsg>,
     pub in_qos2_pending: Vec<u16>,
     pub owed_acks: Vec<OwedAck>,
-    /// acknowledgements completely written: (kind, id, connection). The client cannot know whether
-    /// they left the machine, so one repetition on a later connection of the same session is allowed.
-    pub sent_acks: Vec<(AckKind, u16, usize)>,
+    /// acknowledgements completely written: (kind, id, connection, a flush completed afterwards).
+    /// Until a flush has completed the client cannot know whether they left the machine, so it may
+    /// repeat them on later connections of the same session.
+    pub sent_acks: Vec<(AckKind, u16, usize, bool)>,
     pub delivered: u32,
     pub rx_size: usize,
     pub cfg_clean_keep: (u16, u32),
@@ -156,6 +157,8 @@ pub struct Oracle {
     pub last_connect_len: usize,
     /// what an outside observer saw, per class (twin comparisons)
     pub obs: Obs,
+    /// violations flagged since the trace was last updated (shown in replays where they occur)
+    pub flag_log: Vec<String>,
 }
 
 /// Observable behaviour of one execution, split into the classes whose relative order is fixed.
@@ -193,6 +196,7 @@ impl Oracle {
             cfg_clean_keep: (0, 0),
             last_connect_len: 0,
             obs: Obs::default(),
+            flag_log: Vec::new(),
         }
     }
 
@@ -208,6 +212,7 @@ impl Oracle {
         if self.viol.iter().any(|v| v.sig == sig) {
             return;
         }
+        self.flag_log.push(format!("  !! {}: {}", sig, detail));
         self.viol.push(Violation { prop, sig, detail });
     }
 
@@ -810,15 +815,7 @@ impl Oracle {
             None if self
                 .sent_acks
                 .iter()
-                .any(|(k, p, conn)| *k == kind && *p == pid && *conn < c) =>
-            {
-                let i = self
-                    .sent_acks
-                    .iter()
-                    .position(|(k, p, conn)| *k == kind && *p == pid && *conn < c)
-                    .unwrap();
-                self.sent_acks.remove(i);
-            }
+                .any(|(k, p, conn, flushed)| *k == kind && *p == pid && *conn < c && !*flushed) => {}
             None => {
                 self.flag(
                     "C04",
@@ -979,10 +976,22 @@ impl Oracle {
                     .or_else(|| self.owed_acks.iter().position(|o| o.kind == a.kind && o.pid == a.pid));
                 if let Some(p) = pos {
                     self.owed_acks.remove(p);
-                    self.sent_acks.push((a.kind, a.pid, c));
+                    self.sent_acks.push((a.kind, a.pid, c, false));
+                } else if let Some(e) = self.sent_acks.iter_mut().find(|e| e.0 == a.kind && e.1 == a.pid && e.2 < c && !e.3) {
+                    // the permitted repetition has now been written on this connection
+                    e.2 = c;
                 }
             }
             _ => {}
+        }
+    }
+
+    /// A flush completed on connection `c`: everything written there before has left the machine.
+    pub fn flush_ok(&mut self, c: usize) {
+        for e in self.sent_acks.iter_mut() {
+            if e.2 == c {
+                e.3 = true;
+            }
         }
     }
 
